@@ -434,7 +434,7 @@ func Supervise(c *SuperCfg) int {
 	// crashes of worker processes become violations with a regenerated plan
 	for _, ci := range a.crashed {
 		sig, msg := crashSig(c.Prop, ci)
-		plan := def.Gen(def, c.Tier, runSeed(c.Seed, ci.run), ci.run)
+		plan := GenPlan(def, c.Tier, runSeed(c.Seed, ci.run), ci.run)
 		if ci.race {
 			if plan.Sched == nil {
 				plan.Sched = &SchedP{}
@@ -570,7 +570,7 @@ func (c *SuperCfg) determinismCheck(a *agg, def *PropDef) int {
 			continue
 		}
 		n++
-		plan := def.Gen(def, c.Tier, runSeed(c.Seed, run), run)
+		plan := GenPlan(def, c.Tier, runSeed(c.Seed, run), run)
 		r, stderr, code := c.execPlan(c.Bin, plan, fmt.Sprintf("det%d", run), 300*time.Second)
 		if r == nil && code == -9 {
 			fmt.Printf("WARNING: determinism re-execution of run %d did not finish within 300 s (loaded machine?), skipped\n", run)
